@@ -2,7 +2,8 @@
     current status.  Property theorems only. *)
 From stdpp Require Import gmap list numbers sorting.
 From Coq Require Import ZArith NArith.
-From Verif Require Import Tx.Store Tx.Ledger Tx.Hist Tx.Inv Tx.Refine Tx.RefineAll Tx.Corollaries Tx.InvObs Tx.InvRange.
+From Verif Require Import Tx.Store Tx.Ledger Tx.Hist Tx.Inv Tx.Refine Tx.RefineAll Tx.Corollaries Tx.InvObs Tx.InvRange
+  Tx.Query Tx.QueryProofs.
 Local Open Scope Z_scope.
 
 (** After every prefix of a chain-consistent history, for every transaction of
@@ -70,3 +71,130 @@ Proof.
   split; [by apply watch_correct | by apply (locked_list_correct U)].
 Qed.
 Print Assumptions C13_watch_and_lease_lists.
+
+(** Lookup qualified by a block (UniqueTxDetails with block <> nil, the
+    branch RPC and GetTransactions use): after every prefix of a
+    chain-consistent history, for every transaction and EVERY block (height,
+    hash), the lookup returns the ledger's details iff the ledger has the
+    transaction confirmed in exactly that block, and nothing otherwise - not
+    for the block it was in before a reorganisation, not for a block it never
+    was in, not for the right height under another hash; with block = nil it
+    answers iff the transaction is unconfirmed. *)
+Theorem C13_block_qualified_lookup :
+  ∀ (U : universe) (h p : list event) (t : txid),
+    wf_universe U = true → chain_consistent U h = true → p `prefix_of` h →
+    let s := st (run U p) in let F := fs (spec_run U p) in
+    (∀ bb : blockid, unique_tx_details U s t (Some bb) =
+                     if bool_decide (f_conf F !! t = Some bb) then spec_details U F t else None) ∧
+    unique_tx_details U s t None = if bool_decide (t ∈ f_unconf F) then spec_details U F t else None.
+Proof. exact c13_block_lookup. Qed.
+Print Assumptions C13_block_qualified_lookup.
+
+(** Range iteration with its callback, full details: for every (begin, end)
+    and every callback that answers "stop" on its k-th call (k = 0: never),
+    the callback has seen exactly the first k groups of the iteration (all of
+    them for k = 0) and no error is raised; and these groups are, in order,
+    the groups the ledger prescribes ([spec_range]: unconfirmed group first
+    when begin < 0, last when only end < 0; one group per confirmed height in
+    the range, ascending or descending), each delivered group being a
+    PERMUTATION of the prescribed one: every transaction of the group exactly
+    once, with the ledger's block, credits (index, amount, spent, change) and
+    debits.  The order inside a group is not fixed. *)
+Theorem C13_range_groups_with_details_and_early_exit :
+  ∀ (U : universe) (h p : list event) (b e : Z) (k : nat),
+    wf_universe U = true → chain_consistent U h = true → p `prefix_of` h →
+    let s := st (run U p) in let F := fs (spec_run U p) in
+    range_collect U s b e k = take_stop k (range_transactions U s b e) ∧
+    Forall2 (≡ₚ) (range_collect U s b e k) (take_stop k (spec_range U F b e)).
+Proof. exact c13_range_groups. Qed.
+Print Assumptions C13_range_groups_with_details_and_early_exit.
+
+(** PreviousPkScripts for a known transaction asked at its current status
+    (nil block while unconfirmed, the confirming block otherwise): exactly one
+    script per input that spends a wallet credit - an output credited to the
+    wallet by a known transaction - in input order, nothing for foreign
+    inputs, never a data error. *)
+Theorem C13_previous_scripts :
+  ∀ (U : universe) (h p : list event) (t : txid),
+    wf_universe U = true → chain_consistent U h = true → p `prefix_of` h →
+    let s := st (run U p) in let F := fs (spec_run U p) in
+    known F t = true →
+    previous_pkscripts U s t (f_conf F !! t) = Some (spec_prev U F t).
+Proof. exact c13_previous_scripts. Qed.
+Print Assumptions C13_previous_scripts.
+
+(** Wallet.GetTransactions: (1) it is the range iteration over the resolved
+    identifiers (nil = 0 resp. -1, a height as given, a hash as the chain
+    backend resolves it, a backend error is returned), every block group
+    becoming one entry of the mined list in iteration order, the unconfirmed
+    group the unmined list, a closed cancel channel stopping after the first
+    group; (2) its result is the one the ledger prescribes
+    ([spec_get_transactions], a function of the facts only) up to the order
+    inside a group: each transaction in range once, under the block that
+    currently confirms it or in the unmined list, with its debits (input
+    index, amount), credited output indices and fee. *)
+Theorem C13_get_transactions :
+  ∀ (U : universe) (h p : list event) (start end_ : option bident) (cancel : bool),
+    wf_universe U = true → chain_consistent U h = true → p `prefix_of` h →
+    let s := st (run U p) in let F := fs (spec_run U p) in
+    get_transactions U s start end_ cancel =
+      match resolve_ident 0 start, resolve_ident (-1) end_ with
+      | Some b, Some e =>
+        GtOk (spec_gt_of_groups U (take_stop (if cancel then 1%nat else O) (range_transactions U s b e)))
+      | _, _ => GtErr
+      end ∧
+    match spec_get_transactions U F start end_ cancel with
+    | Some r' => ∃ r, get_transactions U s start end_ cancel = GtOk r ∧ gt_equiv r r'
+    | None => get_transactions U s start end_ cancel = GtErr
+    end.
+Proof. exact c13_get_transactions. Qed.
+Print Assumptions C13_get_transactions.
+
+(** The complete listing, GetTransactions(nil, nil): every transaction the
+    ledger knows is listed exactly once (the listed txids are a permutation of
+    the known ones) - a confirmed one in the entry of the block that currently
+    confirms it, an unconfirmed one in the unmined list; removed transactions
+    nowhere (confirmed heights below 2^31). *)
+Theorem C13_get_transactions_lists_each_known_transaction_once :
+  ∀ (U : universe) (h p : list event),
+    wf_universe U = true → chain_consistent U h = true → p `prefix_of` h →
+    let s := st (run U p) in let F := fs (spec_run U p) in
+    (∀ t hh b, f_conf F !! t = Some (hh, b) → hh <= max_i32) →
+    ∃ r, get_transactions U s None None false = GtOk r ∧
+         gt_txids r ≡ₚ known_list F ∧
+         (∀ blk txs x, (blk, txs) ∈ gt_mined r → x ∈ txs → f_conf F !! sm_tx x = Some blk) ∧
+         (∀ x, x ∈ gt_unmined r → sm_tx x ∈ f_unconf F).
+Proof. exact c13_get_transactions_all. Qed.
+Print Assumptions C13_get_transactions_lists_each_known_transaction_once.
+
+(** Non-vacuity: a transaction confirmed in block (10, #1), detached and
+    confirmed again in block (10, #2), with an unconfirmed child spending its
+    first credit: the stale block and a wrong height answer nothing, the
+    current block answers with the spent flag set by the unconfirmed child;
+    the child's input script; GetTransactions by end hash; early exit after
+    the unconfirmed group. *)
+Definition ex_universe : universe := universe_of_list
+  [ {| t_id := 2%N; t_ins := [(1%N, 0%N)]; t_outs := [5000; 700]; t_creds := [(0%N, false); (1%N, true)]; t_coinbase := false |};
+    {| t_id := 4%N; t_ins := [(2%N, 0%N); (3%N, 1%N)]; t_outs := [4000]; t_creds := [(0%N, false)]; t_coinbase := false |} ].
+Definition ex_history : list event :=
+  [Confirm 2%N 10 1%N 0; Seen 4%N; Disconnect 10; Confirm 2%N 10 2%N 0].
+
+Example C13_example_reorg_lookup :
+  wf_universe ex_universe = true ∧ chain_consistent ex_universe ex_history = true ∧
+  let s := st (run ex_universe ex_history) in
+  unique_tx_details ex_universe s 2%N (Some (10, 1%N)) = None ∧
+  unique_tx_details ex_universe s 2%N (Some (11, 2%N)) = None ∧
+  unique_tx_details ex_universe s 2%N (Some (10, 2%N)) =
+    Some {| d_block := Some (10, 2%N);
+            d_credits := [ {| cr_index := 0; cr_amt := 5000; cr_spent := true; cr_change := false |};
+                           {| cr_index := 1; cr_amt := 700; cr_spent := false; cr_change := true |} ];
+            d_debits := [] |} ∧
+  previous_pkscripts ex_universe s 4%N None = Some [(2%N, 0%N)] ∧
+  get_transactions ex_universe s None (Some (IdHash (Some 10))) false =
+    GtOk {| gt_mined := [((10, 2%N), [ {| sm_tx := 2; sm_inputs := []; sm_outputs := [0%N; 1%N]; sm_fee := 0 |} ])];
+            gt_unmined := [] |} ∧
+  range_collect ex_universe s (-1) 0 1 =
+    [[(4%N, {| d_block := None;
+               d_credits := [ {| cr_index := 0; cr_amt := 4000; cr_spent := false; cr_change := false |} ];
+               d_debits := [(0%N, 5000)] |})]].
+Proof. vm_compute. repeat split. Qed.
